@@ -17,3 +17,4 @@ CONSTANTS
   BIGSET = FALSE
   SAMPLE = 37
   STREAMLEN = 4
+  TWOCOLOURS = FALSE
